@@ -73,6 +73,7 @@ func replayLiterals(args []string) (any, error) {
 		for _, sign := range variants {
 			src := "x = " + sign + spelled
 			sum.Evaluations++
+			disturbParser()
 			ss, perr := parser.ParsePipeline("l.p", src)
 			sig := fmt.Sprintf("literal:%s:%q", r.Kind, sign+spelled)
 			detail := map[string]any{"source": src, "kind": r.Kind, "want": j.J.V, "tag": r.Tag}
